@@ -109,6 +109,15 @@ CLAIMED["C13"] = dict(
          "enumerated case parameters (3 in quick, all 64 in thorough); IEE CTR counter overflow is a recorded finding.",
     ref="DESIGN.md section 3 C13")
 
+CLAIMED["C14"] = dict(
+    technique="symbolic execution of the real BootableImage / Segment / BinaryImage code over the real device database: "
+              "application container lengths and init offsets (also a history of two settings) are solver variables in the "
+              "layout cases, segment contents in the byte cases; z3 QF_BV decides offsets, non-overlap, gap pattern and "
+              "parse(export) recovery",
+    note="Out of the claim: the inside of MBI/HAB/AHAB/SB containers (replaced by one self-delimiting container model in "
+         "both runs); FCB/XMCD content other than the default block; format ambiguities listed in the harness.",
+    ref="DESIGN.md section 3 C14")
+
 NOT_APPLICABLE = {
     "C18": "quantifies over OS-level crash points of a pickle file and over process schedules around a FileLock; the "
            "deciding code is pickle (C) / the file system / the scheduler - no SPSDK arithmetic or layout to encode; "
